@@ -390,8 +390,12 @@ func (c *MustacheParser) performSyntaxAnalysisForSection(variable string) ([]*Mu
 		result = append(result, resultToken)
 	}
 
-	token := c.getCurrentToken()
-	err = merr.NewMustacheError("", ErrCodeNotClosedSection, "Not closed section for variable '"+variable+"'", token.Line(), token.Column())
+	// The template ended inside the section: there is no current token to take a position from
+	line, column := 0, 0
+	if token := c.getCurrentToken(); token != nil {
+		line, column = token.Line(), token.Column()
+	}
+	err = merr.NewMustacheError("", ErrCodeNotClosedSection, "Not closed section for variable '"+variable+"'", line, column)
 	return nil, err
 }
 
